@@ -639,10 +639,103 @@ Example cred_conforming_nonvacuous :
   model (ICred {| k_entry := ViaProvider; k_ep := ECode; k_id := "svc"; k_secret := "s"; k_sent := SBasic "svc:%zz" |}) = OHint HRefused.
 Proof. repeat split; reflexivity. Qed.
 
+(* ---- layer (g): RegisterServer over a partial Server ---- *)
+Lemma walk_reached S ms tr :
+  reached_outside S ms tr = match walk S ms tr with Some _ => true | None => false end.
+Proof.
+  revert tr. induction ms as [|m ms IH]; intros [|ok tr]; try reflexivity.
+  cbn [reached_outside walk]. destruct (in_set S m); cbn [negb orb]; [|reflexivity].
+  destruct ok; cbn [andb]; [apply IH|reflexivity].
+Qed.
+
+Lemma unimpl_answer_error m rp :
+  exists st c, unimpl_answer m rp = UAns st c false /\ (st = 404 \/ st = 400).
+Proof.
+  unfold unimpl_answer. destruct (is_grant_method m); [do 2 eexists; split; [reflexivity|right; reflexivity]|].
+  destruct m; try (do 2 eexists; split; [reflexivity|left; reflexivity]).
+  destruct rp; do 2 eexists; (split; [reflexivity|]); [right|left]; reflexivity.
+Qed.
+
+Lemma web_server_total u : exists st c t, web_server u = UAns st c t.
+Proof.
+  unfold web_server. destruct (walk _ _ _) as [m|].
+  - destruct (unimpl_answer_error m (u_request_param u)) as (st & c & E & _). rewrite E. eauto.
+  - unfold u_full. eauto.
+Qed.
+
+Lemma web_server_unimplemented u m :
+  walk (u_set u) (calls (u_route u)) (u_trace u) = Some m ->
+  web_server u = unimpl_answer m (u_request_param u) /\ in_set (u_set u) m = false /\ In m (calls (u_route u)) /\
+  success (web_server u) = false /\ has_token (web_server u) = false.
+Proof.
+  intro W. unfold web_server. rewrite W.
+  assert (A : in_set (u_set u) m = false /\ In m (calls (u_route u))).
+  { revert W. generalize (u_trace u). induction (calls (u_route u)) as [|x ms IH]; intros [|ok tr]; try discriminate.
+    cbn [walk]. destruct (in_set (u_set u) x) eqn:E.
+    - destruct ok; [|discriminate]. intro W. destruct (IH _ W) as [A B]. split; [exact A|right; exact B].
+    - intro W. injection W as <-. split; [exact E|left; reflexivity]. }
+  destruct A as [A B]. repeat split; try assumption;
+    destruct (unimpl_answer_error m (u_request_param u)) as (st & c & E & [->| ->]); rewrite E; reflexivity.
+Qed.
+
+Lemma walk_all_inside S ms tr : (forall m, In m ms -> in_set S m = true) -> walk S ms tr = None.
+Proof.
+  revert tr. induction ms as [|m ms IH]; intros [|ok tr] H; try reflexivity.
+  cbn [walk]. rewrite (H m (or_introl eq_refl)). destruct ok; [|reflexivity].
+  apply IH. intros x I. apply H. right. exact I.
+Qed.
+
+Lemma web_server_inside u :
+  (forall m, In m (calls (u_route u)) -> in_set (u_set u) m = true) -> web_server u = u_full u.
+Proof. intro H. unfold web_server. rewrite (walk_all_inside _ _ _ H). reflexivity. Qed.
+
+Lemma in_set_all m : in_set all_methods m = true.
+Proof. destruct m; reflexivity. Qed.
+
+Lemma web_server_full_set u : u_set u = all_methods -> web_server u = u_full u.
+Proof. intro E. apply web_server_inside. intros m _. rewrite E. apply in_set_all. Qed.
+
+(* an un-reached outside method means the trace stopped before it *)
+Lemma walk_none_outside S ms tr :
+  walk S ms tr = None -> (exists m, In m ms /\ in_set S m = false) ->
+  all_true tr && (List.length tr =? List.length ms) = false.
+Proof.
+  revert tr. induction ms as [|m ms IH]; intros tr W [x [I O]]; [destruct I|].
+  destruct tr as [|ok tr]; [reflexivity|].
+  cbn [walk] in W. destruct (in_set S m) eqn:E; [|discriminate].
+  destruct ok; [|reflexivity].
+  destruct I as [->|I]; [rewrite E in O; discriminate|].
+  specialize (IH tr W (ex_intro _ x (conj I O))).
+  cbn [all_true forallb List.length]. cbn [all_true] in IH. cbn [andb]. exact IH.
+Qed.
+
+Lemma web_server_outside_never_succeeds u :
+  ushape_wf u = true -> (exists m, In m (calls (u_route u)) /\ in_set (u_set u) m = false) ->
+  success (web_server u) = false /\ has_token (web_server u) = false.
+Proof.
+  intros W O. destruct (walk (u_set u) (calls (u_route u)) (u_trace u)) as [m|] eqn:K.
+  - destruct (web_server_unimplemented u m K) as (_ & _ & _ & A & B). split; assumption.
+  - unfold web_server. rewrite K.
+    pose proof (walk_none_outside _ _ _ K O) as N.
+    unfold ushape_wf in W. apply andb_prop in W as [_ W]. rewrite N, orb_false_r in W.
+    apply negb_true_iff in W. apply orb_false_elim in W as [A B]. split; [exact A|exact B].
+Qed.
+
+Definition u_witness (S : list smethod) : ushape :=
+  {| u_set := S; u_route := UToken GCode; u_request_param := false; u_trace := [true; true];
+     u_full_status := 200; u_full_code := ENoCode; u_full_token := true |}.
+
+Example web_server_nonvacuous :
+  ushape_wf (u_witness all_methods) = true /\ web_server (u_witness all_methods) = UAns 200 ENoCode true /\
+  ushape_wf (u_witness [MVerifyClient]) = true /\ web_server (u_witness [MVerifyClient]) = UAns 400 EUnsupportedGrantType false /\
+  web_server (u_witness [MCodeExchange]) = UAns 404 EServerError false /\
+  web_server (u_witness []) = UAns 404 EServerError false.
+Proof. repeat split; reflexivity. Qed.
+
 (* ---- central theorem ---- *)
 Lemma spec_model i : spec i (model i) = true.
 Proof.
-  destruct i as [d m j t|k tok t|s|x|hc he hh|cx|be bh bo|au|ro|nn|e c q|h a e t|dev tok t|o|n amount dash|kk]; cbn.
+  destruct i as [d m j t|k tok t|s|x|hc he hh|cx|be bh bo|au|ro|nn|e c q|h a e t|dev tok t|o|n amount dash|kk|uu]; cbn.
   - pose proof (decode_total t d j) as H. destruct (decode t d j); try reflexivity. now elim H.
   - pose proof (verify_total (time_of t) (lang_of t) k tok) as H.
     destruct (verify _ _ true true k tok); try reflexivity. now elim H.
@@ -666,6 +759,8 @@ Proof.
     destruct (ot_chars o mod 4 =? 1)%N; [reflexivity|]. destruct (decoded_len (ot_chars o) <? 16)%N; reflexivity.
   - destruct ((n <=? 0)%Z || (amount <=? 0)%Z); reflexivity.
   - destruct (cred_handler_total true true kk) as [H|H]; rewrite H; reflexivity.
+  - rewrite walk_reached. unfold web_server. destruct (walk _ _ _) as [m|]; [|reflexivity].
+    destruct (unimpl_answer_error m (u_request_param uu)) as (st & c & E & [->| ->]); rewrite E; reflexivity.
 Qed.
 
 Example spec_model_nonvacuous :
